@@ -346,6 +346,9 @@ impl PoolImpl {
         let first_unpruned_slot = self.first_unpruned_slot();
         self.slot_states = self.slot_states.split_off(&first_unpruned_slot);
         self.parent_ready_tracker.prune(first_unpruned_slot);
+        // a parent below the watermark can no longer receive a certificate
+        self.s2n_waiting_parent_cert
+            .retain(|(parent_slot, _), _| *parent_slot >= first_unpruned_slot);
         // NOTE: The finality tracker prunes its own state internally.
     }
 
@@ -533,10 +536,12 @@ impl Pool for PoolImpl {
         let finalization_event = self
             .finality_tracker
             .add_parent(block_id.clone(), parent_id.clone());
-        let new_parents_ready = self
-            .parent_ready_tracker
-            .handle_finalization(finalization_event);
-        self.send_parent_ready_events(new_parents_ready).await;
+        // a newly known parent link can decide further slots, so this may prune
+        self.handle_finalization(finalization_event).await;
+        if *slot < self.first_unpruned_slot() {
+            // the block's slot is already decided and pruned, nothing left to track
+            return;
+        }
 
         self.slot_state(*slot).notify_parent_known(block_hash);
         if let Some(parent_state) = self.slot_states.get(parent_slot)
